@@ -496,7 +496,7 @@ func init() {
 		Assumptions: []string{
 			"canonicity is known from the generator (known elements only, each once, in table order, lengths in bounds), never inferred from the library",
 		},
-		Oracles: map[string]func(*core.Ctx, *core.Case){"fixedpoint": c03FixedPoint},
+		Oracles: map[string]func(*core.Ctx, *core.Case){"fixedpoint": c03FixedPoint, "receive-buffer": c03ReceiveBuffer},
 	}
 	p.Floors = func(tier string, cov map[string]map[string]int64, cnt map[string]int64) []string {
 		sp, err := codecSpec()
@@ -550,6 +550,28 @@ func init() {
 						c.NonTrivial(k.Hash())
 					}
 					c.Sample(k.Brief())
+				}
+			}})
+		}
+		us = append(us, reuseUnits(sp, "receive-buffer", 40, 800)...)
+		us = append(us, domainUnits(sp, msgs, tier, 30, func(c *core.Ctx, d *domainPDU, i int) {
+			k := &core.Case{Oracle: "fixedpoint", Target: "nas.Message.PlainNasDecode", B: [][]byte{d.B}, I: []int64{b2i(d.Canon)}}
+			c.Do(k)
+			if i%16 == 0 {
+				c.NonTrivial(k.Hash())
+			}
+		})...)
+		for _, def := range msgs {
+			def := def
+			if len(def.OptSlots()) == 0 {
+				continue
+			}
+			us = append(us, core.Unit{Name: "many-" + def.Name, Weight: 5, Run: func(c *core.Ctx) {
+				for _, n := range manyCounts(c.Thorough()) {
+					b := manyOpts(def, c.R, n).Bytes()
+					k := &core.Case{Oracle: "fixedpoint", Target: "nas.Message.PlainNasDecode", B: [][]byte{b}, I: []int64{0}}
+					c.Do(k)
+					c.NonTrivial(k.Hash())
 				}
 			}})
 		}
